@@ -70,6 +70,15 @@ def run_task(t):
             res['msg'] = str(ex)[:200]
             return res
         res['after_blocks'] = blocks_of(r)
+        # the returned object itself, freshly evaluated (no memo slots on it yet)
+        res['result_obj_centroid'] = vols(r, 'centroid')
+        r2 = build(mesh).resolve_degeneracy()
+        try:
+            mt = r2.calculate_element_metrics(raise_negative_metric=False)
+            res['result_obj_metrics'] = {'ids': [int(i) for i in r2.elements.ids],
+                                         'values': [fhex(x) for x in np.asarray(mt)[:, 0]]}
+        except Exception as ex:   # noqa
+            res['result_obj_metrics'] = {'error': type(ex).__name__ + ': ' + str(ex)[:200]}
         after_mesh = {'node_ids': [int(i) for i in r.nodes.ids],
                       'coords': [[float(x) for x in row] for row in r.nodes.data],
                       'blocks': res['after_blocks']}
